@@ -189,3 +189,50 @@ func Verif_C07_established_wins_against_just_accepted() {
 	verifAssert("stop-closes-everything", co.closed && ci.closed && e.pl.nClose == 1)
 	verifAssert("no-goroutine-left", verifGoroutines() == 0)
 }
+
+// the collision is detected and resolved by the rule also when an earlier inbound connection of the peer came and went
+func Verif_C07_collision_after_a_dropped_inbound() {
+	verifNote("real peer, identifiers and AS numbers symbolic: the outbound connection is in OpenConfirm (or still OpenSent, symbolic); a first inbound connection is accepted and dropped by the remote (FIN) before it sent its OPEN; then a second inbound connection completes its OPEN exchange (and, if the outbound one was still in OpenSent, the outbound OPEN arrives afterwards): exactly the connection initiated by the dominant speaker survives, the loser gets a Cease and is closed, the survivor establishes on KEEPALIVE")
+	e := newPenv(false)
+	e.p.start()
+	outFirst := verifChoose("outbound-in-openconfirm-first", 2) == 1
+	st := stOpenSent
+	if outFirst {
+		st = stOpenConfirm
+	}
+	co := e.bring(out, st)
+	if co == nil {
+		return
+	}
+	c1 := e.inject()
+	c1.remoteClose(1)
+	verifQuiesce()
+	verifAssert("dropped-inbound-closed", c1.closed && e.p.fsms[in] == nil)
+	verifAssert("outbound-unaffected-by-the-dropped-inbound", !co.closed && e.p.fsms[out] != nil)
+	c2 := e.inject()
+	verifAssert("second-inbound-accepted", !c2.closed && c2.wroteOpenFirst())
+	c2.send(verifMsgOpen, e.openBody())
+	verifQuiesce()
+	if !outFirst {
+		co.send(verifMsgOpen, e.openBody())
+		verifQuiesce()
+	}
+	localDominant := verifOr(e.cfg.localID > e.remoteID, verifAnd(e.cfg.localID == e.remoteID, e.cfg.localAS > e.cfg.remoteAS))
+	keepOut := verifChooseBool(localDominant)
+	surv, loser := c2, co
+	if keepOut {
+		surv, loser = co, c2
+	}
+	verifAssert("loser-closed", loser.closed)
+	verifAssert("loser-got-cease", loser.lastIsCease())
+	verifAssert("survivor-not-closed", !surv.closed)
+	verifAssert("survivor-untouched", len(surv.writes) == 2 && isKeepalive(surv.writes[1]))
+	verifAssert("not-yet-established", e.pl.nEstab == 0)
+	surv.send(verifMsgKeepalive, nil)
+	verifQuiesce()
+	verifAssert("survivor-established", e.pl.nEstab == 1 && e.pl.nClose == 0 && !surv.closed)
+	verifCoverIf("local-dominant", keepOut)
+	verifCoverIf("remote-dominant", !keepOut)
+	e.p.stop()
+	verifAssert("callbacks-wellformed", e.pl.nClose == 1 && !e.pl.badOrder && !e.pl.overlap)
+}
